@@ -49,6 +49,174 @@ def flatten_facts(facts: tuple) -> list:
     return out
 
 
+# --------------------------------------------------------------------------------------------------
+# regex groups: `m.group(k)` / `m.groups()[k-1]` is None on a successful match iff group k can stay unset
+
+MATCH_METHODS = ("match", "fullmatch", "search")
+
+
+def group_ref(t: Any):
+    """(regex term, group number) when t is a capture-group read of a match object, else None."""
+    if not isinstance(t, tuple) or not t:
+        return None
+    m = k = None
+    if t[0] == "proj" and isinstance(t[1], tuple) and t[1][:2] == ("call", ("meth", "groups")) and len(t[1][2]) == 1 and isinstance(t[2], int):
+        m, k = t[1][2][0], t[2] + 1
+    elif t[:2] == ("call", ("meth", "group")) and len(t[2]) == 2 and t[2][1][0] == "const" and isinstance(t[2][1][1], (int, str)):
+        m, k = t[2][0], t[2][1][1]
+    if m is None or m[0] != "call" or m[1][0] != "meth" or m[1][1] not in MATCH_METHODS or not m[2]:
+        return None
+    return m[2][0], k
+
+
+def mandatory_groups(pattern: str) -> Optional[set]:
+    """Groups that are set on every successful match: not inside an alternation with several arms, a repeat that may run
+    zero times, or a look-around.  None when the pattern is outside the modelled regex subset."""
+    from ..rx import parse as rp
+    try:
+        P = rp.parse(pattern)
+    except Exception:
+        return None
+    out: set = set()
+    inv = {v: k for k, v in P.groupindex.items()}
+
+    def go(n) -> None:
+        if isinstance(n, rp.Cat):
+            for x in n.items:
+                go(x)
+        elif isinstance(n, rp.Alt):
+            if len(n.items) == 1:
+                go(n.items[0])
+        elif isinstance(n, rp.Repeat):
+            if n.lo >= 1:
+                go(n.body)
+        elif isinstance(n, rp.Group):
+            if n.index is not None:
+                out.add(n.index)
+                if n.index in inv:
+                    out.add(inv[n.index])
+            go(n.body)
+    go(P.ast)
+    return out
+
+
+def instance_attr_patterns(ctx: Ctx, c0: Any, name: str) -> Optional[list]:
+    """Patterns of the compiled-regex instance attribute `name` over *every* instance of c0 (or a subclass) the package creates:
+    decidable when all of them are created in module-level constants (no construction inside any function body)."""
+    from ..constfold import FoldedObject, Regex
+    subs = {c.qual for c in ctx.prog.subclasses(c0)}
+    names = {q.rsplit(".", 1)[-1] for q in subs}
+    for f in ctx.prog.all_functions():
+        for n in ast.walk(f.node):
+            if isinstance(n, ast.Call):
+                fn = n.func
+                nm = fn.id if isinstance(fn, ast.Name) else fn.attr if isinstance(fn, ast.Attribute) else None
+                if nm in names or nm in ("cls", "type", "__class__") and f.cls is not None and f.cls.qual in subs:
+                    return None  # an instance may be created at run time: the set of instances is not a constant
+    for c in ctx.prog.classes.values():
+        for val, ann, ln in c.body_assigns.values():
+            if val is not None and any(isinstance(n, (ast.Name, ast.Attribute)) and (getattr(n, "id", None) in names or getattr(n, "attr", None) in names)
+                                       for n in ast.walk(val)):
+                return None  # an instance held in a class attribute: not enumerated here
+    out: list = []
+    seen: set = set()
+
+    def visit(v: Any) -> bool:
+        if id(v) in seen:
+            return True
+        seen.add(id(v))
+        if isinstance(v, FoldedObject):
+            if v.cls in subs:
+                try:
+                    a = ctx.fold.getattr(v, name)
+                except Exception:
+                    return False
+                if not isinstance(a, Regex):
+                    return False
+                out.append(a.pattern)
+            return all(visit(x) for x in v.attrs.values())
+        if isinstance(v, dict):
+            return all(visit(x) for x in v.values())
+        if isinstance(v, (list, tuple, set, frozenset)):
+            return all(visit(x) for x in v)
+        return True
+
+    for m in ctx.prog.modules.values():
+        for gname, (val, ann, ln) in m.assigns.items():
+            if val is None or not any(isinstance(n, ast.Call) for n in ast.walk(val)):
+                continue
+            try:
+                v = ctx.fold.fold(ctx.ev.global_value(m, gname))
+            except Exception:
+                # an unfoldable global that mentions one of the classes could hold an instance
+                if any(isinstance(n, (ast.Name, ast.Attribute)) and (getattr(n, "id", None) in names or getattr(n, "attr", None) in names)
+                       for n in ast.walk(val)):
+                    return None
+                continue
+            if not visit(v):
+                return None
+    return out or None
+
+
+def regex_patterns(ctx: Ctx, R: Term) -> Optional[list]:
+    """All pattern strings the compiled-regex term R can denote (class constants over subclasses, every value of a constant
+    table indexed by a run-time key), or None."""
+    from ..constfold import FoldedObject, Regex
+
+    def pat(v):
+        if isinstance(v, Regex):
+            return v.pattern
+        return None
+
+    try:
+        p = pat(ctx.fold.fold(R))
+        if p is not None:
+            return [p]
+    except Exception:
+        pass
+    if R[0] == "attr" and R[1][0] in ("clsparam", "class", "self") and isinstance(R[1][1], str):
+        c0 = ctx.prog.classes.get(R[1][1])
+        if c0 is None:
+            return None
+        if R[1][0] == "self" and c0.find_attr(R[2]) is None:
+            return instance_attr_patterns(ctx, c0, R[2])
+        out = []
+        for c in ctx.prog.subclasses(c0):
+            try:
+                p = pat(ctx.fold.fold(("cattr", c.qual, R[2])))
+            except Exception:
+                p = None
+            if p is None:
+                try:
+                    declared_only = ctx.ev.class_attr_value(c, R[2]) is None
+                except Exception:
+                    declared_only = False
+                if declared_only:
+                    continue  # an abstract base that only declares the attribute: never the run-time class of a match
+                return None
+            out.append(p)
+        return out or None
+    if R[0] == "attr" and R[1][0] == "sub":
+        try:
+            tab = ctx.fold.fold(R[1][1])
+        except Exception:
+            return None
+        vals = list(tab.values()) if isinstance(tab, dict) else list(tab) if isinstance(tab, (list, tuple)) else None
+        if not vals:
+            return None
+        out = []
+        for v in vals:
+            try:
+                p = pat(ctx.fold.getattr(v, R[2]))
+            except Exception:
+                p = None
+            if p is None:
+                return None
+            out.append(p)
+        return out
+    return None
+
+
 class Collector:
     def __init__(self, ctx: Ctx, f, s: Summary) -> None:
         self.ctx = ctx
@@ -144,6 +312,12 @@ class Collector:
                 self.add("ATTRNAME", t, facts, node)
             if fn[0] == "builtin" and fn[1] == "int" and len(t[2]) == 1:
                 self.add("NOTNONE", t[2][0], facts, node, "argument of int()")
+            elif not (fn[0] == "meth" and fn[1] in ("group", "groups")):
+                # a capture group handed to a callable (a converter from a table, a constructor, a lambda): a group that can
+                # stay unset arrives as None (TypeError in int(), the text 'None' from str())
+                for a in list(t[2][1 if fn[0] == "meth" else 0:]) + [v for _, v in t[3]]:
+                    if group_ref(a) is not None:
+                        self.add("NOTNONE", a, facts, node, f"capture group passed to {show(fn)[:40]}")
             if fn[0] == "meth" and t[2]:
                 self.add("NOTNONE", t[2][0], facts, node, f"receiver of .{fn[1]}()")
             if fn[0] == "meth" and fn[1] in ("format", "format_map") and t[2]:
@@ -195,6 +369,7 @@ class Discharger:
         self.contracts = contracts  # {(func qual, param): reason} non-emptiness contracts proved elsewhere
         from ..terms import _FuncEval
         self._fe = {}
+        self._grp: dict = {}
 
     def fe(self, f):
         from ..terms import _FuncEval
@@ -257,10 +432,26 @@ class Discharger:
             return may(init) or may(upd)
         if k == "call" and x[1][0] == "meth" and x[1][1] in ("match", "search", "fullmatch", "get"):
             return True
+        g = group_ref(x)
+        if g is not None:
+            return not self.group_always_set(g)
         if k == "ite":
             return True if (self.maybe_none(x[2], Obligation(ob.kind, x[2], ob.facts + ((x[1], True),), ob.func, ob.summary, ob.node))
                             or self.maybe_none(x[3], Obligation(ob.kind, x[3], ob.facts + ((x[1], False),), ob.func, ob.summary, ob.node))) else False
         return False
+
+    def group_always_set(self, g) -> bool:
+        R, k = g
+        key = (R, k)
+        if key not in self._grp:
+            pats = regex_patterns(self.ctx, R)
+            ok = bool(pats)
+            for p_ in pats or ():
+                mg = mandatory_groups(p_)
+                if mg is None or k not in mg:
+                    ok = False
+            self._grp[key] = ok
+        return self._grp[key]
 
     def positive(self, x: Term, facts: list, ob: Obligation) -> bool:
         if x[0] == "const":
